@@ -938,6 +938,111 @@ def check_create_bound(ctx) -> None:
         ctx.ok("C10.bounds", fn, "bound parameters", f"{n} bounds written into one document, with and without id replacement: shared parameters for the shared values; every other bound refers to a parameter that exists once, has a valid id and carries exactly that value (evaluated)")
 
 
+def check_readers_not_memoised(ctx, rule: str, modules) -> None:
+    """What a file holds is no function of its name (it may be rewritten through a file handle, by another call or by
+    another program): a function of the reader modules that takes its result from the file system or the parser
+    library must not be memoised on its arguments. Rule: no function of the given modules that (transitively, within
+    the module) opens / reads / parses carries a cache decorator, and none of them consults a module-level table keyed
+    by one of its own parameters before reading."""
+    prog = ctx.prog
+    scanned = 0
+    for mod in modules:
+        try:
+            unit = prog.unit(mod)
+        except Exception:  # noqa: BLE001
+            raise AnalysisError(f"{rule}: module {mod} not found")
+        funcs = [f for f in prog.all_funcs() if f.unit is unit and f.parent is None]
+        byname = {f.node.name: f for f in funcs}
+        module_tables = {n for n, vals in unit.globals.items() if vals and isinstance(vals[-1], (ast.Dict, ast.Call)) and (isinstance(vals[-1], ast.Dict) and not vals[-1].keys or norm(getattr(vals[-1], "func", vals[-1])).split(".")[-1] in ("dict", "OrderedDict", "WeakValueDictionary", "defaultdict") and not getattr(vals[-1], "args", None))}
+
+        def touches_files(f, seen=None) -> bool:
+            seen = seen if seen is not None else set()
+            if f.qualname in seen:
+                return False
+            seen.add(f.qualname)
+            for n in walk_local(f.node):
+                if isinstance(n, ast.Call):
+                    name = norm(n.func)
+                    last = name.split(".")[-1]
+                    if last in ("open", "read_text", "read_bytes", "loadmat", "load", "safe_load") or last.startswith("readSBML") or (last in ("read", "loads") and name.split(".")[0] in ("json", "yaml", "f", "handle", "file_handle")):
+                        return True
+                    if isinstance(n.func, ast.Name) and n.func.id in byname and touches_files(byname[n.func.id], seen):
+                        return True
+            return False
+
+        for f in funcs:
+            if not touches_files(f):
+                continue
+            scanned += 1
+            cached = [d for d in (f.decorators or []) if re.search(r"\b(lru_cache|cache|cached|memoize|memoized|cached_property)\b", d)]
+            if cached:
+                ctx.bad(rule, f, f.node, f"`{f.node.name}` reads from the file system / the parser and is memoised on its arguments (@{cached[0]}): when the file is rewritten in any way that does not clear this cache - through an open file handle, by another writer - the next read of the same name returns the document as it was")
+                continue
+            params = {a.arg for a in f.node.args.args + f.node.args.kwonlyargs}
+            memo = None
+            for n in walk_local(f.node):
+                if isinstance(n, ast.Subscript) and isinstance(n.value, ast.Name) and n.value.id in module_tables and isinstance(n.ctx, ast.Store) and any(isinstance(x, ast.Name) and x.id in params for x in ast.walk(n.slice)):
+                    memo = n
+            if memo is not None:
+                ctx.bad(rule, f, enclosing_stmt(memo), f"`{f.node.name}` keeps what it read in the module-level table `{memo.value.id}` under its own argument: a later read of the same name is answered from the table, whatever the file holds by then")
+            else:
+                ctx.ok(rule, f, None, "reads the source on every call", nontrivial=True)
+    if not scanned:
+        raise AnalysisError(f"{rule}: no reading function found in {list(modules)}")
+
+
+def check_legacy_rule_source(ctx) -> None:
+    """A document that uses the fbc package states its gene rules as geneProductAssociations: a reaction without one has
+    an empty rule. The legacy fallback (the rule text kept in the notes under GENE ASSOCIATION / GENE_ASSOCIATION - notes
+    are exported verbatim, so a written model may well carry such a note next to an empty rule) belongs to documents
+    without the plugin. Rule (guard dominance): every read of these note keys in the reader lies in a branch that is
+    taken only when the fbc plugin object (`x.getPlugin("fbc")`) of the model or of the reaction is absent."""
+    prog = ctx.prog
+    fn = prog.func(MOD, "_sbml_to_model")
+    plugins = set()
+    for n in walk_local(fn.node):
+        if isinstance(n, (ast.Assign, ast.AnnAssign)) and isinstance(getattr(n, "value", None), ast.Call):
+            c = n.value
+            if isinstance(c.func, ast.Attribute) and c.func.attr == "getPlugin" and c.args and isinstance(c.args[0], ast.Constant) and c.args[0].value == "fbc":
+                for t in (n.targets if isinstance(n, ast.Assign) else [n.target]):
+                    if isinstance(t, ast.Name):
+                        plugins.add(t.id)
+    sites = [n for n in walk_local(fn.node) if isinstance(n, ast.Constant) and n.value in ("GENE ASSOCIATION", "GENE_ASSOCIATION") and not isinstance(parent(n), ast.JoinedStr)
+             and isinstance(parent(n), (ast.Compare, ast.Subscript, ast.Call))]
+    if not sites or not plugins:
+        ctx.note("C10.legacy: the reader has no legacy rule fallback (or no fbc plugin object) that is read here")
+        return
+
+    def present(test) -> Optional[bool]:
+        """True: the test holds only when a plugin is present; False: only when it is absent; None: unrelated."""
+        if isinstance(test, ast.Name) and test.id in plugins:
+            return True
+        if isinstance(test, ast.UnaryOp) and isinstance(test.op, ast.Not):
+            inner = present(test.operand)
+            return None if inner is None else not inner
+        if isinstance(test, ast.Compare) and len(test.ops) == 1 and isinstance(test.left, ast.Name) and test.left.id in plugins and isinstance(test.comparators[0], ast.Constant) and test.comparators[0].value is None:
+            return isinstance(test.ops[0], ast.IsNot) if isinstance(test.ops[0], (ast.Is, ast.IsNot)) else None
+        return None
+
+    for site in sites:
+        ok = False
+        child = site
+        for a in ancestors(site):
+            if a is fn.node:
+                break
+            if isinstance(a, ast.If):
+                side = present(a.test)
+                in_body = any(child is x or any(child is y for y in ast.walk(x)) for x in a.body)
+                if side is not None and ((side and not in_body) or (not side and in_body)):
+                    ok = True
+                    break
+            child = a
+        if ok:
+            ctx.ok("C10.legacy", fn, site, "the rule text in the notes is consulted only for a document / reaction without the fbc plugin")
+        else:
+            ctx.bad("C10.legacy", fn, enclosing_stmt(site), f"the note `{site.value}` is read as the gene rule on a path that is also taken when the fbc plugin is present (plugin objects: {sorted(plugins)}): a reaction written with an empty rule and such a note (notes are exported verbatim) is read back with the rule of the note")
+
+
 class _Tag:
     """An id replacement function of the f_replace table (callable stand-in)."""
 
@@ -1358,6 +1463,10 @@ def run(ctx) -> None:
     ctx.rule("C10.notes", "T7: text written between tags passes an XML escape, the reader applies the matching unescape", floor=1)
     ctx.guard(check_notes_escaping, ctx)
     ctx.guard(check_compartment_source, ctx)
+    ctx.rule("C10.reread", "T4: the functions that read a document from the file system / the parser are not memoised on the file name", floor=2)
+    ctx.guard(check_readers_not_memoised, ctx, "C10.reread", ("cobra.io.sbml",))
+    ctx.rule("C10.legacy", "T2 guard dominance: the legacy rule text of the notes is consulted only in the absence of the fbc plugin", floor=2)
+    ctx.guard(check_legacy_rule_source, ctx)
     ctx.guard(check_objective_written, ctx)
     ctx.guard(check_member_lookup, ctx)
     check_annot(ctx)
